@@ -119,7 +119,11 @@ func zvTFollow(q vrt.ConcInst) bool {
 func zvTRun(pid string, kinds []int, share, lin bool) {
 	vrt.ConcShapes = 1 // pairs only, also in the thorough tier (triples over a tree exceed 25 min); thorough enlarges the pre-states instead
 	vrt.ConcSelectors = 2
-	pre := zvTPre(vrt.Pick(1, 2))
+	pmax := vrt.Pick(1, 2)
+	if pid == "C01" {
+		pmax = 1
+	}
+	pre := zvTPre(pmax)
 	prog := vrt.ConcProgram(vrt.ConcShape(), kinds)
 	vrt.ConcCheck(pid, "Trie", zvMkTrie(pre), prog, nil, share, lin, zvTFollow)
 }
